@@ -20,7 +20,7 @@ import (
 // builds bracket nests of depth n and 2n from every wrapper (and every ordered
 // pair of wrappers, alternating) below and asserts
 //
-//	cost(2n) - cost(1) <= 8 * (cost(n) - cost(1)) + slack     (any polynomial of degree <= 3)
+//	cost(2n) - cost(1) <= 8 * (cost(n) - cost(1)) + 2 * cost(1) + 50     (any polynomial of degree <= 3)
 //
 // for Compile and for one invocation, on every back end (cost(1) removes the
 // fixed price of setting an engine up). Work that is re-done
@@ -51,6 +51,14 @@ var c12Wraps = []c12Wrap{
 	{"[[", "]: 1]", "a"},          // list inside map key
 	{"f0(", ")", "a"},             // host function
 	{"lz(", ", 1)", "a"},          // host lazy function
+	// chains that nest to the LEFT, whose left operand decides the result (a
+	// lazy operator that looks at its left operand twice doubles the work per link)
+	{"", " && tb()", "fb()"},
+	{"", " || fb()", "tb()"},
+	{"", " && t", "fb()"},
+	{"fb() && ", "", "tb()"},
+	{"tb() || ", "", "fb()"},
+	{"", " + f0(a)", "f0(a)"},     // a left-nested strict chain
 }
 
 func c12Nest(w1, w2 c12Wrap, n int) string {
@@ -77,7 +85,9 @@ func c12CostEnv(e *Expr) (*types.Env, *val.Env) {
 	tenv.Put("t", types.Bool)
 	venv.Put("a", val.Num(sv.Float64("a")))
 	venv.Put("t", val.True)
-	e.RegisterFun(val.Fun(types.Fun("f0", []*types.Type{types.Num}, types.Num), func(v ...*val.Val) *val.Val { return v[0] }))
+	e.RegisterFun(val.Fun(types.Fun("f0", []*types.Type{types.Num}, types.Num), func(v ...*val.Val) *val.Val { sv.Tick(); return v[0] }))
+	e.RegisterFun(val.Fun(types.Fun("tb", []*types.Type{}, types.Bool), func(v ...*val.Val) *val.Val { sv.Tick(); return val.True }))
+	e.RegisterFun(val.Fun(types.Fun("fb", []*types.Type{}, types.Bool), func(v ...*val.Val) *val.Val { sv.Tick(); return val.False }))
 	e.RegisterFun(val.LazyFun(types.Fun("lz", []*types.Type{types.Num, types.Num}, types.Num), func(v ...*val.Val) *val.Val { return v[0].Fun().Call() }))
 	return tenv, venv
 }
@@ -119,10 +129,10 @@ func H12_cost() {
 		}
 	}
 	sv.Logf("wrap %d/%d backend %d: compile %d %d -> %d, eval %d %d -> %d", i, j, backend, cost[2], cost[0], cost[1], ecost[2], ecost[0], ecost[1])
-	sv.Assert("compile-cost-grows-polynomially-with-nesting-depth", cost[1]-cost[2] <= 8*(cost[0]-cost[2])+3000)
+	sv.Assert("compile-cost-grows-polynomially-with-nesting-depth", cost[1]-cost[2] <= 8*(cost[0]-cost[2])+2*cost[2]+50)
 	if evaluated[0] && evaluated[1] && evaluated[2] {
 		sv.Reach("evaluated")
-		sv.Assert("evaluation-cost-grows-polynomially-with-nesting-depth", ecost[1]-ecost[2] <= 8*(ecost[0]-ecost[2])+1000)
+		sv.Assert("evaluation-cost-grows-polynomially-with-nesting-depth", ecost[1]-ecost[2] <= 8*(ecost[0]-ecost[2])+2*ecost[2]+50)
 	} else {
 		sv.Reach("rejected-at-compile-time")
 	}
